@@ -3,8 +3,9 @@
   Property theorems ONLY (lemmas: SuppModel/Attrs/Lemmas.lean; witnesses: SuppModel/Witness/C06.lean).
   Statements are about the executable tables `classAttrs` (= ClassObject._attrs) and `instAttrs`
   (= InstanceValue._attrs) of SuppModel/Attrs/Model.lean against the specification of SuppModel/Attrs/Spec.lean
-  (`mro`, `classLookup`, `instAssigned`).  Domain: `Acyclic` (on an inheritance cycle the real code raises
-  RecursionError: property C08) and `NoRepeatedAncestors` (there the depth-first linearisation `mro` IS Python's
+  (`mro`, `classLookup`, `instAssigned`).  Domain: `Acyclic` (the in-progress guard of the tables never fires;
+  on an inheritance cycle the guard cuts the cycle — the tables are still total, `C06_total` — and no lookup order is
+  claimed) and `NoRepeatedAncestors` (there the depth-first linearisation `mro` IS Python's
   C3 MRO; the theorems themselves hold of the depth-first order on every acyclic hierarchy, the hypothesis marks
   where that order is Python's — the harness compares `mro` with CPython's `__mro__`).
 -/
@@ -100,17 +101,24 @@ theorem C06_complete_class (h : Hier) (c : ClassId) (x : String)
     · exact ⟨_, he, Or.inl ⟨d, rfl, hx⟩⟩
     · exact ⟨_, he, Or.inr ⟨nm, a, rfl, hx⟩⟩
 
-/-- the fuel (`fuel h` = number of classes + 1, standing for Python's stack) is immaterial: whenever an
-    amount suffices, the linearisation and every lookup in both tables are the same -/
+/-- the fuel is immaterial on acyclic hierarchies: whenever an amount suffices, the linearisation and every lookup
+    in both tables are the same -/
 theorem C06_fuel_independent (h : Hier) (c : ClassId) (x : String) (n m : Nat)
-    (hn : okF n h c = true) (hm : okF m h c = true) :
+    (hn : okG n [] h c = true) (hm : okG m [] h c = true) :
     mroF n h c = mroF m h c ∧
-    Dict.get (classAttrsF n h c) x = Dict.get (classAttrsF m h c) x ∧
-    Dict.get (instOnlyF n h c) x = Dict.get (instOnlyF m h c) x := by
-  have hmro := mroF_indep n m h c hn hm
+    Dict.get (classAttrsG n [] h c) x = Dict.get (classAttrsG m [] h c) x ∧
+    Dict.get (instOnlyG n [] h c) x = Dict.get (instOnlyG m [] h c) x := by
+  have hmro := mroF_indep n m h c (okF_of_okG _ _ h c hn) (okF_of_okG _ _ h c hm)
   refine ⟨hmro, ?_, ?_⟩
-  · rw [get_classAttrsF n h c x hn, get_classAttrsF m h c x hm, hmro]
-  · rw [get_instOnlyF n h c x hn, get_instOnlyF m h c x hm, hmro]
+  · rw [get_classAttrsG n [] h c x hn, get_classAttrsG m [] h c x hm, hmro]
+  · rw [get_instOnlyG n [] h c x hn, get_instOnlyG m [] h c x hm, hmro]
+
+/-- totality, cyclic hierarchies included (no hypothesis): the in-progress guard bounds the recursion by the number
+    of classes — `fuel h` = number of classes + 1 is always enough, more fuel never changes a table.  (Before a174aec
+    the code had no guard and a cycle ended in RecursionError.) -/
+theorem C06_total (h : Hier) (c : ClassId) (k : Nat) :
+    classAttrsG (fuel h + k) [] h c = classAttrs h c ∧ instOnlyG (fuel h + k) [] h c = instOnly h c :=
+  tables_total h c k
 
 /-! non-vacuity: a diamond-free hierarchy of depth 3 with an override at every level, a rebinding inside one
     body, self-assignments in two classes, a builtin and an unevaluable base, multiple inheritance:
@@ -137,6 +145,19 @@ example : instAssigned hEx 3 "x" = true ∧ instAssigned hEx 3 "k" = false ∧
     Dict.get (instAttrs hEx 3) "__init__" = some (.builtin "object") := by decide
 example : Dict.keys (instAttrs hEx 3) = ["__init__", "__repr__", "m", "a", "b", "k", "x", "y"] := by decide
 -- C06_fuel_independent: two different sufficient amounts of fuel exist
-example : okF 3 hEx 3 = true ∧ okF 7 hEx 3 = true := by decide
+example : okG 3 [] hEx 3 = true ∧ okG 7 [] hEx 3 = true := by decide
+
+end SuppModel.Props.C06
+
+namespace SuppModel.Props.C06
+open SuppModel.Attrs
+
+/-! `C06_total` on a cyclic hierarchy: `class A(B): a`, `class B(A): b` (across two modules).  Collecting A meets A
+    again below B: that occurrence contributes nothing, so A's table is B's body then A's; the hierarchy is outside
+    `Acyclic` -/
+def hCyc : Hier := [(0, ⟨[.src 1], [("a", 1)], [("ai", 2)]⟩), (1, ⟨[.src 0], [("b", 3)], [("bi", 4)]⟩)]
+example : ¬ Acyclic hCyc 0 := by decide
+example : Dict.keys (classAttrs hCyc 0) = ["b", "a"] ∧ Dict.keys (classAttrs hCyc 1) = ["a", "b"] ∧
+    Dict.keys (instAttrs hCyc 0) = ["b", "a", "bi", "ai"] := by decide
 
 end SuppModel.Props.C06
